@@ -45,7 +45,7 @@ Proof. vm_compute. repeat split; reflexivity. Qed.
 (* ------------------------------------------------------------------------------------------------------
    Added in build session 4 (statements re-stated from the proof files by harness tooling; each is closed by
    exact). *)
-From SplipyModel Require Import Proofs.ObjEval Proofs.IdenticalEndToEnd Transfer.ParamObj Transfer.ParamOps Transfer.ParamOps2 Proofs.IdenticalPeriodic.
+From SplipyModel Require Import Proofs.ObjEval Proofs.IdenticalEndToEnd Transfer.ParamObj Transfer.ParamOps Transfer.ParamOps2 Proofs.IdenticalPeriodic Model.IdenticalFix Proofs.IdenticalFixProofs Transfer.ParamIdenticalFix.
 Theorem C12_compatible_then_evaluate :
   forall (tol : R) (o1 o2 : obj R) (ts : list R),
          0 < tol ->
@@ -382,4 +382,236 @@ Theorem C12_exc_hyps_lo2 :
   identical_lo2_hyps exp_tol exr_curve PeriodicEndToEnd.ex_curve 0 9 8 8 8.
 Proof. exact @exc_hyps_lo2. Qed.
 Print Assumptions C12_exc_hyps_lo2.
+
+Theorem C12_identical_dir2_eq_open :
+  forall (F : Type) (H : Num F) (tol : F) (o1 o2 : obj F) (i : nat),
+         b_per1 (nth i (o_bases o1) {| b_order := 0; b_knots := []; b_per1 := 0 |}) = 0%nat \/
+         b_per1 (nth i (o_bases o2) {| b_order := 0; b_knots := []; b_per1 := 0 |}) = 0%nat ->
+         identical_dir2 tol o1 o2 i = identical_dir tol o1 o2 i.
+Proof. exact @identical_dir2_eq_open. Qed.
+Print Assumptions C12_identical_dir2_eq_open.
+
+Theorem C12_make_identical2_eq_nonperiodic :
+  forall (F : Type) (H : Num F) (tol : F) (o1 o2 : obj F) (dir : option nat),
+         nonper o1 -> nonper o2 -> obj_make_identical2 tol o1 o2 dir = obj_make_identical tol o1 o2 dir.
+Proof. exact @make_identical2_eq_nonperiodic. Qed.
+Print Assumptions C12_make_identical2_eq_nonperiodic.
+
+Theorem C12_identical_dir2_knots :
+  forall (tol : R) (o1 o2 : obj R) (i : nat),
+         identical_hyps tol o1 o2 i ->
+         forall a b : obj R,
+         identical_dir2 tol o1 o2 i = Ok (a, b) ->
+         let ba := nth i (o_bases a) dflt_basis in
+         let bb := nth i (o_bases b) dflt_basis in
+         b_order ba = Nat.max (b_order (nth i (o_bases o1) dflt_basis)) (b_order (nth i (o_bases o2) dflt_basis)) /\
+         b_order bb = Nat.max (b_order (nth i (o_bases o1) dflt_basis)) (b_order (nth i (o_bases o2) dflt_basis)) /\
+         b_per1 ba = 0%nat /\
+         b_per1 bb = 0%nat /\
+         b_start ba = 0 /\
+         b_end ba = 1 /\
+         b_start bb = 0 /\
+         b_end bb = 1 /\
+         b_knots ba = b_knots bb /\
+         OrderProofs.lsorted (b_knots ba) /\
+         (forall v : R,
+          SplitCompose.mult (b_knots ba) v =
+          Nat.max
+            (rmult (b_knots (ReparamEndToEnd.rp_basis (nth i (o_bases o1) dflt_basis) 0 1))
+               (Nat.max (b_order (nth i (o_bases o1) dflt_basis)) (b_order (nth i (o_bases o2) dflt_basis)) -
+                b_order (nth i (o_bases o1) dflt_basis)) v)
+            (rmult (b_knots (ReparamEndToEnd.rp_basis (nth i (o_bases o2) dflt_basis) 0 1))
+               (Nat.max (b_order (nth i (o_bases o1) dflt_basis)) (b_order (nth i (o_bases o2) dflt_basis)) -
+                b_order (nth i (o_bases o2) dflt_basis)) v)) /\
+         wf_obj_R tol a /\
+         wf_obj_R tol b /\
+         length (o_bases a) = length (o_bases o1) /\
+         length (o_bases b) = length (o_bases o2) /\
+         (forall j : nat, j <> i -> nth j (o_bases a) dflt_basis = nth j (o_bases o1) dflt_basis) /\
+         (forall j : nat, j <> i -> nth j (o_bases b) dflt_basis = nth j (o_bases o2) dflt_basis) /\
+         o_dim a = Nat.max (o_dim o1) (o_dim o2) /\
+         o_dim b = Nat.max (o_dim o1) (o_dim o2) /\ o_rat a = o_rat o1 || o_rat o2 /\ o_rat b = o_rat o1 || o_rat o2.
+Proof. exact @identical_dir2_knots. Qed.
+Print Assumptions C12_identical_dir2_knots.
+
+Theorem C12_identical_dir2_eval :
+  forall (tol : R) (o1 o2 : obj R) (i : nat),
+         identical_hyps tol o1 o2 i ->
+         forall a b : obj R,
+         identical_dir2 tol o1 o2 i = Ok (a, b) ->
+         forall ts : list R,
+         SplitCompose.dom_all tol o1 ts ->
+         (i < length ts)%nat ->
+         param_clear tol (nth i (o_bases o1) dflt_basis) (nth i (o_bases o2) dflt_basis) (nth i ts 0) ->
+         obj_eval tol a
+           (KnotInsert.upd ts i
+              ((nth i ts 0 - b_start (nth i (o_bases o1) dflt_basis)) /
+               (b_end (nth i (o_bases o1) dflt_basis) - b_start (nth i (o_bases o1) dflt_basis)))) =
+         res_map (pad (Nat.max (o_dim o1) (o_dim o2) - o_dim o1)) (obj_eval tol o1 ts).
+Proof. exact @identical_dir2_eval. Qed.
+Print Assumptions C12_identical_dir2_eval.
+
+Theorem C12_make_identical2_knots :
+  forall (tol : R) (o1 o2 : obj R) (i : nat),
+         identical_hyps tol o1 o2 i ->
+         forall a b : obj R,
+         obj_make_identical2 tol o1 o2 (Some i) = Ok (a, b) ->
+         let ba := nth i (o_bases a) dflt_basis in
+         let bb := nth i (o_bases b) dflt_basis in
+         b_order ba = Nat.max (b_order (nth i (o_bases o1) dflt_basis)) (b_order (nth i (o_bases o2) dflt_basis)) /\
+         b_order bb = Nat.max (b_order (nth i (o_bases o1) dflt_basis)) (b_order (nth i (o_bases o2) dflt_basis)) /\
+         b_per1 ba = 0%nat /\
+         b_per1 bb = 0%nat /\
+         b_start ba = 0 /\
+         b_end ba = 1 /\
+         b_start bb = 0 /\
+         b_end bb = 1 /\
+         b_knots ba = b_knots bb /\
+         o_dim a = Nat.max (o_dim o1) (o_dim o2) /\ o_dim b = Nat.max (o_dim o1) (o_dim o2) /\ o_rat a = o_rat b.
+Proof. exact @make_identical2_knots. Qed.
+Print Assumptions C12_make_identical2_knots.
+
+Theorem C12_make_identical2_eval :
+  forall (tol : R) (o1 o2 : obj R) (i : nat),
+         identical_hyps tol o1 o2 i ->
+         forall a b : obj R,
+         obj_make_identical2 tol o1 o2 (Some i) = Ok (a, b) ->
+         forall ts : list R,
+         SplitCompose.dom_all tol o1 ts ->
+         (i < length ts)%nat ->
+         param_clear tol (nth i (o_bases o1) dflt_basis) (nth i (o_bases o2) dflt_basis) (nth i ts 0) ->
+         obj_eval tol a
+           (KnotInsert.upd ts i
+              ((nth i ts 0 - b_start (nth i (o_bases o1) dflt_basis)) /
+               (b_end (nth i (o_bases o1) dflt_basis) - b_start (nth i (o_bases o1) dflt_basis)))) =
+         res_map (pad (Nat.max (o_dim o1) (o_dim o2) - o_dim o1)) (obj_eval tol o1 ts).
+Proof. exact @make_identical2_eval. Qed.
+Print Assumptions C12_make_identical2_eval.
+
+Theorem C12_identical_dir2_eq_per :
+  forall (tol : R) (o1 o2 : obj R) (i na nb : nat) (Ta Tb : R),
+         identical_per_hyps tol o1 o2 i na nb Ta Tb -> identical_dir2 tol o1 o2 i = identical_dir tol o1 o2 i.
+Proof. exact @identical_dir2_eq_per. Qed.
+Print Assumptions C12_identical_dir2_eq_per.
+
+Theorem C12_identical_dir2_per_knots :
+  forall (tol : R) (o1 o2 : obj R) (i na nb : nat) (Ta Tb : R),
+         identical_per_hyps tol o1 o2 i na nb Ta Tb ->
+         forall a b : obj R,
+         identical_dir2 tol o1 o2 i = Ok (a, b) ->
+         let ba := nth i (o_bases a) dflt_basis in
+         let bb := nth i (o_bases b) dflt_basis in
+         b_order ba = b_order (nth i (o_bases o1) dflt_basis) /\
+         b_order bb = b_order (nth i (o_bases o1) dflt_basis) /\
+         b_per1 ba = b_per1 (nth i (o_bases o1) dflt_basis) /\
+         b_per1 bb = b_per1 (nth i (o_bases o1) dflt_basis) /\
+         b_start ba = 0 /\
+         b_end ba = 1 /\
+         b_start bb = 0 /\
+         b_end bb = 1 /\
+         b_knots ba = b_knots bb /\
+         (exists nk : nat,
+            PeriodicEndToEnd.canon_dir a i nk 1 /\
+            PeriodicEndToEnd.canon_dir b i nk 1 /\
+            PeriodicSplit.per_strict (b_knots ba) (b_per1 (nth i (o_bases o1) dflt_basis)) /\
+            (forall v : R,
+             cw (b_knots ba) (b_per1 (nth i (o_bases o1) dflt_basis)) nk v =
+             Nat.max
+               (cw (b_knots (ReparamEndToEnd.rp_basis (nth i (o_bases o1) dflt_basis) 0 1))
+                  (b_per1 (nth i (o_bases o1) dflt_basis)) na v)
+               (cw (b_knots (ReparamEndToEnd.rp_basis (nth i (o_bases o2) dflt_basis) 0 1))
+                  (b_per1 (nth i (o_bases o1) dflt_basis)) nb v))) /\
+         wf_obj_R tol a /\
+         wf_obj_R tol b /\
+         length (o_bases a) = length (o_bases o1) /\
+         length (o_bases b) = length (o_bases o2) /\
+         (forall j : nat, j <> i -> nth j (o_bases a) dflt_basis = nth j (o_bases o1) dflt_basis) /\
+         (forall j : nat, j <> i -> nth j (o_bases b) dflt_basis = nth j (o_bases o2) dflt_basis) /\
+         o_dim a = Nat.max (o_dim o1) (o_dim o2) /\
+         o_dim b = Nat.max (o_dim o1) (o_dim o2) /\ o_rat a = o_rat o1 || o_rat o2 /\ o_rat b = o_rat o1 || o_rat o2.
+Proof. exact @identical_dir2_per_knots. Qed.
+Print Assumptions C12_identical_dir2_per_knots.
+
+Theorem C12_identical_dir2_per_eval :
+  forall (tol : R) (o1 o2 : obj R) (i na nb : nat) (Ta Tb : R),
+         identical_per_hyps tol o1 o2 i na nb Ta Tb ->
+         forall a b : obj R,
+         identical_dir2 tol o1 o2 i = Ok (a, b) ->
+         forall ts : list R,
+         SplitCompose.dom_all tol o1 ts ->
+         (i < length ts)%nat ->
+         b_start (nth i (o_bases o1) dflt_basis) <= nth i ts 0 <= b_end (nth i (o_bases o1) dflt_basis) ->
+         param_clear tol (nth i (o_bases o1) dflt_basis) (nth i (o_bases o2) dflt_basis) (nth i ts 0) ->
+         obj_eval tol a
+           (KnotInsert.upd ts i
+              ((nth i ts 0 - b_start (nth i (o_bases o1) dflt_basis)) /
+               (b_end (nth i (o_bases o1) dflt_basis) - b_start (nth i (o_bases o1) dflt_basis)))) =
+         res_map (pad (Nat.max (o_dim o1) (o_dim o2) - o_dim o1)) (obj_eval tol o1 ts).
+Proof. exact @identical_dir2_per_eval. Qed.
+Print Assumptions C12_identical_dir2_per_eval.
+
+Theorem C12_identical_dir2_seam_ok :
+  forall (tol : R) (o1 o2 : obj R) (i na nb : nat) (Ta Tb : R),
+         identical_per_hyps2 tol o1 o2 i na nb Ta Tb ->
+         let b1 := nth i (o_bases o1) dflt_basis in
+         let b2 := nth i (o_bases o2) dflt_basis in
+         exists a b : obj R,
+           identical_dir2 tol o1 o2 i = Ok (a, b) /\
+           per_facts tol o1 o2 i (b_per1 b1) (b_knots (ReparamEndToEnd.rp_basis b1 0 1))
+             (b_knots (ReparamEndToEnd.rp_basis b2 0 1)) na nb a b.
+Proof. exact @identical_dir2_seam_ok. Qed.
+Print Assumptions C12_identical_dir2_seam_ok.
+
+Theorem C12_make_identical2_seam_ok :
+  forall (tol : R) (o1 o2 : obj R) (i na nb : nat) (Ta Tb : R),
+         identical_per_hyps2 tol o1 o2 i na nb Ta Tb ->
+         exists a b : obj R, obj_make_identical2 tol o1 o2 (Some i) = Ok (a, b).
+Proof. exact @make_identical2_seam_ok. Qed.
+Print Assumptions C12_make_identical2_seam_ok.
+
+Theorem C12_exs_hyps2 :
+  identical_per_hyps2 exp_tol exs_curve PeriodicEndToEnd.ex_curve 0 9 8 8 8.
+Proof. exact @exs_hyps2. Qed.
+Print Assumptions C12_exs_hyps2.
+
+Theorem C12_exs_seam_differs :
+  SplitCompose.mult
+           (b_knots (ReparamEndToEnd.rp_basis {| b_order := 4; b_knots := exs_knots; b_per1 := 3 |} 0 1)) 0 = 2%nat /\
+         SplitCompose.mult
+           (b_knots (ReparamEndToEnd.rp_basis {| b_order := 4; b_knots := PeriodicInsert.ex_knots; b_per1 := 3 |} 0 1))
+           0 = 1%nat.
+Proof. exact @exs_seam_differs. Qed.
+Print Assumptions C12_exs_seam_differs.
+
+Theorem C12_old_identical_seam_defect :
+  exists a a' b' : obj Q,
+           KnotInsert.obj_insert_knots q_c1 0 [0%Q] = Ok a /\
+           q_kn a = [(-3)%Q; (-2)%Q; (-1)%Q; 0%Q; 0%Q; 1%Q; 2%Q; 3%Q; 4%Q; 5%Q; 6%Q; 7%Q; 8%Q; 8%Q; 9%Q; 10%Q] /\
+           identical_dir q_tol a q_c2 0 = Ok (a', b') /\
+           q_kn a' =
+           [-3 # 8; -1 # 4; -1 # 8; 0%Q; 0%Q; 0%Q; 0%Q; 1 # 8; 1 # 4; 3 # 8; 1 # 2; 5 # 8; 
+            3 # 4; 7 # 8; 1%Q; 1%Q; 1%Q; 1%Q] /\
+           q_kn b' =
+           [-3 # 8; -1 # 4; -1 # 8; 0%Q; 0%Q; 0%Q; 1 # 8; 1 # 4; 3 # 8; 1 # 2; 5 # 8; 3 # 4; 
+            7 # 8; 1%Q; 1%Q; 1%Q; 9 # 8] /\ length (q_kn a') = 18%nat /\ length (q_kn b') = 17%nat.
+Proof. exact @old_identical_seam_defect. Qed.
+Print Assumptions C12_old_identical_seam_defect.
+
+Theorem C12_repaired_identical_seam :
+  exists a a' b' : obj Q,
+           KnotInsert.obj_insert_knots q_c1 0 [0%Q] = Ok a /\
+           identical_dir2 q_tol a q_c2 0 = Ok (a', b') /\
+           q_kn a' = q_kn b' /\
+           q_kn a' =
+           [-3 # 8; -1 # 4; -1 # 8; 0%Q; 0%Q; 1 # 8; 1 # 4; 3 # 8; 1 # 2; 5 # 8; 3 # 4; 7 # 8; 1%Q; 1%Q; 9 # 8; 5 # 4] /\
+           length (o_cps a') = 9%nat /\ length (o_cps b') = 9%nat.
+Proof. exact @repaired_identical_seam. Qed.
+Print Assumptions C12_repaired_identical_seam.
+
+Theorem C12_executed_is_proved_identical_repaired :
+  forall (tol : Q) (o1 o2 : obj Q) (direction : option nat),
+         resmap (pairmap objQ2R objQ2R) (obj_make_identical2 tol o1 o2 direction) =
+         obj_make_identical2 (Q2R tol) (objQ2R o1) (objQ2R o2) direction.
+Proof. exact @obj_make_identical2_transfer. Qed.
+Print Assumptions C12_executed_is_proved_identical_repaired.
 
